@@ -2,6 +2,7 @@
 enumerated sets of source programs.  Every generator returns a list of case
 dicts (see xcase.py).  Exclusions are listed in DESIGN 3.9."""
 import itertools
+import re as _re
 
 HDR = "from stationeers_pytrapic.symbols import *\n"
 
@@ -73,7 +74,8 @@ def ctrl(tier="quick"):
     for n, b in enumerate(blocks):
         body = b.replace("{k}", str(10 + n % 7))
         src = "x = d0.Setting\ny = d2.Setting\nacc = 1\n" + body + "\ndb.Setting = acc\n"
-        out.append(mk("CTRL", n, src, V=[0, 1, 2, 3], K=10, T=3, cap=256, variants=[{}, {"remove_labels": True}]))
+        fam = "W-F01g" if ("for v0 in [" in src and "for v1 in [" in src) else "CTRL"  # nested for-over-list: finding F-01g
+        out.append(mk(fam, n, src, V=[0, 1, 2, 3], K=10, T=3, cap=256, variants=[{}, {"remove_labels": True}]))
     # two-statement bodies: sequencing of two constructs (state carried over)
     seq = [b for b in _ctrl_blocks(1)]
     step = 7 if tier == "quick" else 2
@@ -193,7 +195,10 @@ def expr(tier="quick"):
             forms = forms[:1] + forms[2:]
         for fm in forms:
             src = "x = d1.Setting\n" + fm
-            out.append(mk("EXPR", n, src, V=[0, 1, 2, 3], K=6, T=2, cap=300, variants=[{}]))
+            # 'if a < b' is lowered to a branch on the negated comparison: with a NaN operand (0/0, x % 0) the if-branch is
+            # taken although the comparison is false (finding F-01i)
+            fam = "W-F01i" if (fm.startswith("if ") and _re.search(r"[/%] \(?(d0|x)", e) and "<" in e) else "EXPR"
+            out.append(mk(fam, n, src, V=[0, 1, 2, 3], K=6, T=2, cap=300, variants=[{}]))
             n += 1
     return out
 
@@ -434,28 +439,35 @@ def dev(tier="quick"):
 # TERM (terminating main with out-of-line functions) -- C07
 
 def term():
+    """Programs whose top-level code terminates (C07): function shapes x main shapes x inline on/off x convention."""
     out = []
     n = 0
     fdefs = {
         "f1": "def f(a):\n    db.On = a\n",
         "f1r": "def f(a):\n    db.On = a\n    return a + 1\n",
         "f2": "def f(a):\n    db.On = a\ndef g(b):\n    db.Mode = b\n    f(b)\n    f(b + 1)\n",
+        "f1early": "def f(a):\n    if a > 1:\n        return a\n    db.On = a\n    return a + 1\n",
+        "f3": "def aa(a):\n    db.On = a\ndef bb(b):\n    db.Mode = b\ndef cc(c):\n    db.Lock = c\n    aa(c)\n    bb(c)\n",
+        "unused": "def f(a):\n    db.On = a\ndef never(b):\n    db.Open = b\n",
     }
-    mains = {
-        "straight": {"f1": "f(d0.Setting)\nf(2)\ndb.Setting = 5\n", "f1r": "db.Setting = f(d0.Setting)\ndb.Setting = f(2)\n", "f2": "g(d0.Setting)\ng(1)\ndb.Setting = 5\n"},
-        "break": {
-            "f1": "n = 0\nwhile True:\n    f(n)\n    n += 1\n    if n > d0.Setting:\n        break\nf(9)\n",
-            "f1r": "n = 0\nwhile True:\n    n = f(n)\n    if n > d0.Setting:\n        break\ndb.Setting = f(9)\n",
-            "f2": "n = 0\nwhile True:\n    g(n)\n    n += 1\n    if n > d0.Setting:\n        break\ng(9)\n",
-        },
-        "cond": {"f1": "if d0.Setting > 1:\n    f(1)\nf(2)\n", "f1r": "if d0.Setting > 1:\n    db.Setting = f(1)\ndb.Setting = f(2)\n", "f2": "if d0.Setting > 1:\n    g(1)\ng(2)\n"},
-    }
-    for mk_, per in mains.items():
-        for fk, main in per.items():
-            src = fdefs[fk] + main
-            for inline in (True, False):
-                out.append(mk("TERM", n, src, main_shape=mk_, funcs=fk, V=[0, 1, 2], K=14, T=2, cap=64, variants=[{"inline_functions": inline}]))
-                n += 1
+    call = {"f1": "f({})", "f1r": "db.Setting = f({})", "f2": "g({})", "f1early": "db.Setting = f({})", "f3": "cc({})", "unused": "f({})"}
+    for fk, fd in fdefs.items():
+        c = call[fk].format
+        upd = "n = f(n)\n" if fk in ("f1r", "f1early") else c("n") + "\nn += 1\n"
+        mains = {
+            "straight": c("d0.Setting") + "\n" + c("2") + "\ndb.Setting = 5\n",
+            "once": c("d0.Setting") + "\ndb.Setting = 5\n",
+            "break": "n = 0\nwhile True:\n" + ind(upd + "if n > d0.Setting:\n    break") + c("9") + "\n",
+            "cond": "if d0.Setting > 1:\n" + ind(c("1")) + c("2") + "\n",
+            "whilecount": "n = 0\nwhile n < d0.Setting:\n" + ind(upd) + "db.Setting = n\n",
+            "forrange": "for i in range(d0.Setting):\n" + ind(c("i")) + c("7") + "\n",
+            "lastiscall": "db.Setting = 5\n" + c("d0.Setting") + "\n" + c("3") + "\n",
+            "yieldthenend": c("d0.Setting") + "\nyield_()\n" + c("1") + "\n",
+        }
+        for mk_, main in mains.items():
+            src = fd + main
+            out.append(mk("TERM", n, src, main_shape=mk_, funcs=fk, V=[0, 1, 2], K=16, T=3, cap=64))
+            n += 1
     return out
 
 
@@ -586,3 +598,220 @@ def w_tailcall():
         "def f(a):\n    db.On = a\ndef g(p):\n    if p > 1:\n        return\n    db.Mode = p\n    f(p + 1)\nwhile True:\n    g(d0.Setting)\n    g(1)\n    f(5)\n    yield_()\n",
     ]
     return [mk("W-F02a", i, s, V=[0, 1, 2, 3], K=10, T=2, cap=64, variants=[{"inline_functions": False}, {"inline_functions": False, "tail_call_optimization": True}]) for i, s in enumerate(srcs)]
+
+
+# ----------------------------------------------------------------------------
+# FUNC2: calling mechanics (C06) -- leaf/mid call shapes
+
+LEAF_RET = {
+    "none": "db.On = {t}\n",
+    "end": "return {t}\n",
+    "early": "if {t} > 2:\n    return {t} - 1\ndb.On = {t}\nreturn {t} + 1\n",
+    "multi": "if {t} > 3:\n    return 30\nif {t} > 1:\n    db.On = {t}\n    return 20\ndb.Mode = {t}\nreturn 10 + {t}\n",
+    "loop": "for q in range(3):\n    if q == {t}:\n        return q + 10\n    db.On = q\nreturn 0 - 1\n",
+    "bare": "if {t} > 1:\n    return\ndb.On = {t}\n",
+}
+LEAF_HASRET = {"end", "early", "multi", "loop"}
+MID_USE = ["stmt", "assign", "expr", "tailstmt", "retcall", "inloop", "inif", "twice_inside"]
+
+
+def func2(tier="quick"):
+    out = []
+    n = 0
+    names = ["a", "b", "c", "e", "g"]
+    for ar in (0, 1, 2, 4, 5):
+        params = names[:ar]
+        enc = _enc(params)
+        for rk, rt in LEAF_RET.items():
+            has = rk in LEAF_HASRET
+            leaf = fdef("leaf", params, "t = " + enc + "\n" + rt.format(t="t"))
+            for use in MID_USE:
+                if use in ("assign", "expr", "retcall") and not has:
+                    continue
+                args = ["p", "2", "p + 1", "7", "x"][:ar]
+                args_g = ["p", "2", "p + 1", "7", "XG"][:ar]
+                call = f"leaf({', '.join(args_g)})"
+                for locals_live in (False, True):
+                    pre = "m = p * 3\n" if locals_live else ""
+                    post = "db.Mode = m + p\n" if locals_live else "db.Mode = p\n"
+                    if use == "stmt":
+                        body = pre + call + "\n" + post
+                        mret = False
+                    elif use == "assign":
+                        body = pre + f"u = {call}\n" + post + "return u + 100\n"
+                        mret = True
+                    elif use == "expr":
+                        body = pre + post + f"return {call} * 2 + p\n"
+                        mret = True
+                    elif use == "tailstmt":
+                        body = pre + post + call + "\n"
+                        mret = False
+                    elif use == "retcall":
+                        body = pre + post + f"return {call}\n"
+                        mret = True
+                    elif use == "inloop":
+                        body = pre + "for w in range(2):\n" + ind(call if not has else f"db.Lock = {call}") + post
+                        mret = False
+                    elif use == "inif":
+                        body = pre + "if p > 1:\n" + ind(call if not has else f"db.Lock = {call}") + post
+                        mret = False
+                    else:  # twice_inside
+                        c2 = f"leaf({', '.join(['1', 'p', '3', 'p', '5'][:ar])})"
+                        body = pre + (f"u = {call}\nv = {c2}\n" + post + "return u + v\n" if has else call + "\n" + c2 + "\n" + post)
+                        mret = has
+                    mid = fdef("mid", ["p"], body)
+                    for leaf_also_main in (False, True):
+                        for mid_twice in (False, True):
+                            if tier == "quick" and (n % 3) and not (use in ("tailstmt", "retcall") and not locals_live):
+                                n += 1
+                                continue
+                            m1 = "db.Setting = mid(d0.Setting)\n" if mret else "mid(d0.Setting)\n"
+                            m2 = ("db.Setting = mid(x)\n" if mret else "mid(x)\n") if mid_twice else ""
+                            lm = ""
+                            if leaf_also_main:
+                                la = ["x", "1", "3", "x", "5"][:ar]
+                                lm = (f"db.Open = leaf({', '.join(la)})\n" if has else f"leaf({', '.join(la)})\n")
+                            main = "x = d1.Setting\n" + m1 + lm + m2 + "yield_()\n"
+                            src = "XG = 5\n" + leaf + mid + "while True:\n" + ind(main)
+                            out.append(mk("FUNC2", n, src, tag=f"{ar}/{rk}/{use}/{locals_live}/{leaf_also_main}/{mid_twice}", V=[0, 1, 2, 3], K=10, T=2, cap=64))
+                            n += 1
+    return out
+
+
+def func3(tier="quick"):
+    """Deep chains: top -> mid -> low -> leaf (depth 4), every level with a live local and a return value;
+    each level called once or twice (inlined or not)."""
+    out = []
+    n = 0
+    for mask in range(16):
+        tw = [(mask >> i) & 1 for i in range(4)]
+        for ret in (True, False):
+            if ret:
+                leaf = "def leaf(a, b):\n    db.On = a * 10 + b\n    return a + b\n"
+                low = "def low(p):\n    m = p + 1\n    u = leaf(p, 2)\n" + ("    u = u + leaf(m, 3)\n" if tw[0] else "") + "    return u + m\n"
+                mid = "def mid(q):\n    k = q * 2\n    v = low(q)\n" + ("    v = v + low(k)\n" if tw[1] else "") + "    db.Mode = k\n    return v + k\n"
+                top = "def top(z):\n    j = z + 5\n    w = mid(z)\n" + ("    w = w + mid(j)\n" if tw[2] else "") + "    return w + j\n"
+                main = "x = d1.Setting\ndb.Setting = top(d0.Setting)\n" + ("db.Setting = top(x)\n" if tw[3] else "") + "yield_()\n"
+            else:
+                leaf = "def leaf(a, b):\n    db.On = a * 10 + b\n"
+                low = "def low(p):\n    m = p + 1\n    leaf(p, 2)\n" + ("    leaf(m, 3)\n" if tw[0] else "") + "    db.Lock = m\n"
+                mid = "def mid(q):\n    k = q * 2\n    low(q)\n" + ("    low(k)\n" if tw[1] else "") + "    db.Mode = k\n"
+                top = "def top(z):\n    j = z + 5\n    mid(z)\n" + ("    mid(j)\n" if tw[2] else "") + "    db.Open = j\n"
+                main = "x = d1.Setting\ntop(d0.Setting)\n" + ("top(x)\n" if tw[3] else "") + "yield_()\n"
+            src = leaf + low + mid + top + "while True:\n" + ind(main)
+            out.append(mk("FUNC3", n, src, tag=f"{mask}/{ret}", V=[0, 1, 2], K=14, T=2, cap=32))
+            n += 1
+    return out
+
+
+def names_lib():
+    """NAMES skeleton 3: one library module (with and without alias) beside a main-file function; module name and
+    function names drawn from the confusable alphabet (dotted labels '<module>.<function>')."""
+    out = []
+    n = 0
+    mods = ["util", "up", "f", "lb"]
+    for mod in mods:
+        for a, b in itertools.permutations(["f", "show", "util_show", "up", "update", "date", "end", "fend"], 2):
+            if a == mod or b == mod:
+                continue
+            lib = f"def {a}(p):\n    if p > 1:\n        return p + 1\n    db.On = p\n    return p + 2\ndef twice(q):\n    return {a}(q) + {a}(q + 1)\n"
+            for alias in (None, "m"):
+                bind = alias or mod
+                imp = f"from library import {mod}" + (f" as {alias}" if alias else "") + "\n"
+                main = (
+                    imp
+                    + f"def {b}(q):\n    db.Mode = q\n    return q + 1\n"
+                    + f"while True:\n    db.Setting = {bind}.twice(d0.Setting) + {b}(1)\n    db.Setting = {bind}.{a}(2) + {b}(3)\n    yield_()\n"
+                )
+                ref_main = main.replace(imp, "")
+                out.append(mk("NAMESLIB", n, main, modules={mod: lib}, ref_src=ref_main, ref_modules={mod: (lib, bind)}, names=[a, b], V=[0, 1, 2], K=8, T=2, cap=32))
+                n += 1
+    return out
+
+
+# ----------------------------------------------------------------------------
+# LIB (multi-module programs) -- C13, also C04/C07
+
+def _lib_module(pre, ret, twice, never, mainblock, init, effect_attr):
+    """Source of one library module.  pre = '' for the module form, '<mod>_' for the merged form."""
+    P = lambda n: pre + n
+    s = f"{P('count')} = {init}\n"
+    body = f"global {P('count')}\n{P('count')} = {P('count')} + k\ndb.{effect_attr} = {P('count')}\n" + (f"return {P('count')} * 2 + k\n" if ret else "")
+    s += fdef(P("bump"), ["k"], body)
+    if twice:
+        if ret:
+            s += fdef(P("twice"), ["k"], f"u = {P('bump')}(k)\nw = {P('bump')}(k + 1)\nreturn u + w\n")
+        else:
+            s += fdef(P("twice"), ["k"], f"{P('bump')}(k)\n{P('bump')}(k + 1)\n")
+    if never:
+        s += fdef(P("never"), ["z"], f"db.Open = z + {P('count')}\n")
+    if mainblock and not pre:
+        s += 'if __name__ == "__main__":\n    db.Open = 77\n    while True:\n        yield_()\n'
+    return s
+
+
+def lib(tier="quick"):
+    out = []
+    n = 0
+    for nmods in (1, 2):
+        for ret in (False, True):
+            for twice in (False, True):
+                for collide in (False, True):
+                    for alias_a in (False, True):
+                        for flags in range(8):
+                            never, mainblock, init_dev = flags & 1, flags & 2, flags & 4
+                            for pattern in ("once", "twice", "mixed"):
+                                if tier == "quick" and (n % 2) and pattern != "mixed":
+                                    n += 1
+                                    continue
+                                ma, mb = "aa", "bb"
+                                bind_a = "la" if alias_a else ma
+                                bind_b = mb
+                                mods, rmods, merged = {}, {}, ""
+                                init_a = "d1.Setting" if init_dev else "0"
+                                mods[ma] = _lib_module("", ret, twice, never, mainblock, init_a, "On")
+                                rmods[ma] = (mods[ma], bind_a)
+                                merged += _lib_module(ma + "_", ret, twice, never, False, init_a, "On")
+                                imp = f"from library import {ma}" + (f" as {bind_a}" if alias_a else "") + "\n"
+                                if nmods == 2:
+                                    # second module: same global / function names as the first one (collision dimension is about main)
+                                    mods[mb] = _lib_module("", ret, False, False, mainblock, "10", "Mode")
+                                    rmods[mb] = (mods[mb], bind_b)
+                                    merged += _lib_module(mb + "_", ret, False, False, False, "10", "Mode")
+                                    imp += f"from library import {mb}\n"
+                                gname = "count" if collide else "mine"
+                                fname = "bump" if collide else "local"
+                                mainfn = f"{gname} = 100\n" + fdef(fname, ["q"], f"global {gname}\n{gname} = {gname} + q\ndb.Lock = {gname}\n")
+
+                                def calls(A, B):
+                                    c = []
+                                    f_a = A + ("twice" if twice else "bump")
+                                    if ret:
+                                        c.append(f"db.Setting = {f_a}(x)")
+                                        if pattern in ("twice", "mixed"):
+                                            c.append(f"db.Setting = {A}bump(1) + x")
+                                    else:
+                                        c.append(f"{f_a}(x)")
+                                        if pattern in ("twice", "mixed"):
+                                            c.append(f"{A}bump(1)")
+                                    if B:
+                                        c.append((f"db.Setting = {B}bump(x) + 1" if ret else f"{B}bump(x)"))
+                                        if pattern == "twice":
+                                            c.append((f"db.Setting = {B}bump(2)" if ret else f"{B}bump(2)"))
+                                    c.append(f"{fname}(x)")
+                                    if pattern != "once":
+                                        c.append(f"{fname}(1)")
+                                    return "\n".join(c) + "\n"
+
+                                loop = lambda A, B: "while True:\n" + ind("x = d0.Setting\n" + calls(A, B) + "yield_()\n")
+                                main = imp + mainfn + loop(bind_a + ".", (bind_b + ".") if nmods == 2 else None)
+                                ref_main = mainfn + loop(bind_a + ".", (bind_b + ".") if nmods == 2 else None)
+                                merged_src = merged + mainfn + loop(ma + "_", (mb + "_") if nmods == 2 else None)
+                                twin = None
+                                if never:
+                                    twin = dict(mods)
+                                    twin[ma] = _lib_module("", ret, twice, False, mainblock, init_a, "On")
+                                out.append(mk("LIB", n, main, modules=mods, ref_src=ref_main, ref_modules=rmods, merged_src=merged_src, twin_modules=twin,
+                                              tag=f"{nmods}/{ret}/{twice}/{collide}/{alias_a}/{flags}/{pattern}", V=[0, 1, 2], K=12, T=2, cap=48))
+                                n += 1
+    return out
